@@ -2194,6 +2194,9 @@ def compile_assert_expression(compiler, expr, root, test, msg):
     if not (test.stmts or (msg and msg.stmts)):
         return asty.Assert(expr, test=test.force_expr, msg=msg and msg.force_expr)
 
+    # A test such as `(do)` compiles to nothing and so has no source
+    # position; fall back on the position of the whole form.
+    pos = test if test.lineno is not None else expr
     return asty.If(
         expr,
         test=asty.Name(expr, id="__debug__", ctx=ast.Load()),
@@ -2201,14 +2204,14 @@ def compile_assert_expression(compiler, expr, root, test, msg):
         body=test.stmts
         + [
             asty.If(
-                test,
-                test=asty.UnaryOp(test, op=ast.Not(), operand=test.force_expr),
+                pos,
+                test=asty.UnaryOp(pos, op=ast.Not(), operand=test.force_expr),
                 orelse=[],
                 body=(msg.stmts if msg else [])
                 + [
                     asty.Assert(
                         expr,
-                        test=asty.Constant(test, value=False),
+                        test=asty.Constant(pos, value=False),
                         msg=msg and msg.force_expr,
                     )
                 ],
